@@ -529,6 +529,24 @@ def np_swapaxes(interp, name, args, kw, st, node):
     return fresh_arr(callterm(name, args, kw), None, _L(*args, *kw.values()))
 
 
+@reg("numpy.moveaxis")
+def np_moveaxis(interp, name, args, kw, st, node):
+    """np.moveaxis(a, s, d) with constant single axes: the permutation that takes axis s to position d (a view)"""
+    b = bind(["a", "source", "destination"], args, kw)
+    x = arrv(b["a"])
+    sh = shape(x)
+    s_, d_ = b.get("source"), b.get("destination")
+    if sh is not None and s_ is not None and d_ is not None and s_.has_const and d_.has_const and isinstance(s_.const, int) and isinstance(d_.const, int) and not isinstance(s_.const, bool):
+        n_ = len(sh)
+        si, di = s_.const % n_, d_.const % n_
+        perm = [k_ for k_ in range(n_) if k_ != si]
+        perm.insert(di, si)
+        if perm == list(range(n_)):
+            return x
+        return transpose(interp, x, interp.mk_tuple([vconst(p_) for p_ in perm]))
+    return fresh_arr(callterm(name, args, kw), None, _L(*args, *kw.values()))
+
+
 @reg("numpy.isin", "numpy.in1d")
 def np_isin(interp, name, args, kw, st, node):
     b = bind(["element", "test_elements", "assume_unique", "invert"], args, kw)
